@@ -94,9 +94,13 @@ def _learn(job):
 
 
 def _freq(job):
-    r, c, n, seed = job
+    r, c, n, seed = job[:4]
     np.random.seed(seed % (2**31))
     random.seed(seed)
+    # optional history: other grids generated earlier in the same process (state kept between calls must not matter)
+    for (r0, c0, n0) in (job[4] if len(job) > 4 else ()):
+        for _ in range(n0):
+            gens.G.gen_wilson(np.array([r0, c0]))
     counts = {}
     for _ in range(n):
         m = gens.G.gen_wilson(np.array([r, c]))
@@ -192,7 +196,26 @@ def main(chk: lib.Check) -> int:
         per = n // 16
         parts = [per] * 15 + [n - 15 * per]
         jobs += [(r, c, p, chk.seed * 1000 + 17 * i + 100 * r + c) for i, p in enumerate(parts)]
-    outs = lib.pmap(_freq, jobs)
+    # the same experiments after a history of other grids in the same process (narrower / wider grid with the same row or column count first)
+    hist_jobs = []
+    for (r, c), before in (((2, 3), [(2, 2, 50)]), ((3, 2), [(2, 2, 50), (3, 3, 20)]), ((2, 2), [(2, 3, 50), (3, 2, 50)]), ((3, 3), [(3, 2, 50), (2, 3, 50)])):
+        n = N_TREES[(r, c)] * (300 if (r, c) != (3, 3) else 60)
+        for i in range(4):
+            hist_jobs.append((r, c, n // 4, chk.seed * 977 + 31 * i + 7 * r + c, before))
+    outs = lib.pmap(_freq, jobs + hist_jobs)
+    houts = outs[len(jobs):]
+    outs = outs[: len(jobs)]
+    for (r, c) in sorted({(j[0], j[1]) for j in hist_jobs}):
+        tot = {}
+        for job, o in zip(hist_jobs, houts):
+            if (job[0], job[1]) == (r, c):
+                for k, v in o.items():
+                    tot[k] = tot.get(k, 0) + v
+        n = sum(tot.values())
+        n_use = (n // N_TREES[(r, c)]) * N_TREES[(r, c)]
+        q = chi2_quantile(N_TREES[(r, c)] - 1)
+        freq_recs.append(dict(kind="freq", src="real_rng_after_other_grids", R=r, C=c, exact=False, terms=[], draws=n_use, counts=[dict(slots=[list(x) for x in k], n=v) for k, v in sorted(tot.items())], thr=[int(q * 1000) + 1, 1000]))
+        chk.evaluations += n
     for (r, c) in fshapes:
         tot = {}
         for job, o in zip(jobs, outs):
